@@ -66,6 +66,12 @@ def rule_gr3(prog, G):
                         new = set(flat[cb[1]]) if cb[1] < len(flat) else set()
                     elif cb[0] in ('construct', 'construct-other'):
                         new = {cb[1].name}
+                    elif cb[0] == 'function' and cb[1].name == 'LNot':
+                        # LNot(x) is Not(x) or an operand of a negation
+                        # below x: same sort as a negation
+                        new = {'Not'}
+                        for k in flat:
+                            new |= set(k)
                     elif cb[0] == 'function':
                         new = {'<via %s>' % cb[1].name}
                     elif cb[0] == 'const':
@@ -97,6 +103,10 @@ def rule_gr3(prog, G):
             bad = set()
             nmin = 0
             unbounded = False
+            kids = [(k[0], set(x for x in k[1] if not x.startswith('<via ')))
+                    if isinstance(k, tuple) else
+                    set(x for x in k if not x.startswith('<via '))
+                    for k in kids]
             for k in kids:
                 if isinstance(k, tuple):
                     bad |= (k[1] - allowed) if allowed is not None else set()
